@@ -385,7 +385,8 @@ class ModuleFinder:
 
     def _extend_from_pth_files(self) -> None:
         for path in self.search_paths:
-            for item in self._contents(path):
+            # Like `site`, handle path configuration files in alphabetical order, not in directory listing order.
+            for item in sorted(self._contents(path)):
                 if item.suffix == ".pth":
                     for directory in _handle_pth_file(item):
                         if scan := directory.always_scan_for:
